@@ -281,6 +281,20 @@ fn check(case: &Case, st: &mut Stats) -> Vec<Violation> {
             }
         }
         // -------- converse: a valid, plausible, advertised register is decoded once gating allows
+        if gate_open && mb >> 48 == 0x20 {
+            st.probe("bds20_offered");
+            let want = ehs::callsign20(mb);
+            if new.ais.clone().unwrap_or_default() != want {
+                v.push(viol("C10.valid-rejected", i, format!("{:06X}: BDS 2,0 {:014X} (callsign {:?}) was not decoded once gating allows: row shows {:?}", a, mb, want, new.ais), w(20, json!({}))));
+                break 'steps;
+            }
+        } else if gate_open && ehs::valid17(mb) && !matches!(mb >> 48, 0x10 | 0x30) {
+            st.probe("bds17_offered");
+            if new.cap_flags != ehs::caps24(mb) {
+                v.push(viol("C10.valid-rejected", i, format!("{:06X}: BDS 1,7 report {:014X} was not recorded once gating allows: flags {:06X}", a, mb, new.cap_flags), w(17, json!({}))));
+                break 'steps;
+            }
+        }
         if gate_open {
             let adv_ok = |reg: u32| relaxed || g.adv[&reg] == Tri::Yes;
             if ehs::all_status40(mb) && ehs::nonzero40(mb) && ehs::clearly_not17(mb) && adv_ok(40) {
